@@ -83,6 +83,7 @@ def child_facts(heap, s, j):
         # W: numeric state of a security is NaN-free (transact ignores NaN quantities; prices may be NaN)
         Implies(issec, And(*[Not(dsl.isnan(heap.get(c, f))) for f in ("_position", "multiplier", "_capital", "_bidoffer_paid", "_weight", "_outlay", "_last_pos")])),
         And(*[Not(dsl.isnan(heap.get(c, f))) for f in ("_value", "_notl_value")]),
+        Implies(issec, dsl.ne(heap.get(c, "multiplier"), 0)),
     ]
     return f
 
